@@ -138,7 +138,44 @@ PROPS = {
         'trusted': ['edfa_nf as a pure function of (gain, model)'],
         'extra': [],
     },
-    'C02': {'level': 'proof', 'claim': 'uc', 'level_note': 'uc', 'trusted': NUMPY_TRUST, 'not_applicable': 'under construction'},
-    'C03': {'level': 'proof', 'claim': 'uc', 'level_note': 'uc', 'trusted': NUMPY_TRUST, 'not_applicable': 'under construction'},
-    'C05': {'level': 'proof', 'claim': 'uc', 'level_note': 'uc', 'trusted': NUMPY_TRUST, 'not_applicable': 'under construction'},
+    'C02': {
+        'level': 'proof',
+        'claim': 'One arbitrary iteration of the path loop of request.propagate proved per element class: ROADM and fused '
+                 'leave the three shares exactly unchanged (frame); a fibre keeps OSNR_ASE and can only lower SNR_NLI; an '
+                 'amplifier keeps SNR_NLI of every surviving channel and can only lower OSNR_ASE; GSNR never increases; '
+                 'the invariant of C01 is carried through (induction over the path = the loop-invariant step).',
+        'level_note': 'RamanFiber (numerical ASE integral), Multiband_amplifier and Transceiver calls are covered by the '
+                      'bounded stand-in only (real propagate with run-time wrappers on designed networks incl. the shipped '
+                      'Raman and multiband examples); NLI >= 0 comes from C03, NLI <= channel power is the stated assumption',
+        'trusted': NUMPY_TRUST + ['NliSolver.compute_nli call-site summary (NLI in [0, channel power])',
+                                  'Roadm.get_impairment, Edfa._gain_profile (assumed contracts)'],
+        'extra': [{'name': 'path_monotone', 'kind': 'bounded', 'script': 'bounded/path_monotone.py', 'timeout': 1500}],
+    },
+    'C03': {
+        'level': 'proof',
+        'claim': 'The analytic GN model proved equal to the published closed form for every comb and fibre: _psi is the '
+                 'asinh kernel per (cut, pump) pair with the pump effective/asymptotic length, _gn_analytic is gamma^2 x '
+                 '(16/27 | 32/27) x psi / B_pump^2, compute_nli is the sum over pumps of P_cut P_pump^2 eta (finite-sum '
+                 'congruence by witness); every pair term and the total are non-negative; the default weights must be the '
+                 'published ones.',
+        'level_note': 'stated assumptions: loss coefficient > 0 (scalar), mean dispersion of every channel pair non-zero, '
+                      'gamma >= 0; beta2/gamma are assumed pure per-channel vectors. Cube law and monotonicity in the pump '
+                      'powers were attempted as two-run harnesses and stay undecided by the solvers: not claimed. Order '
+                      'independence follows from the constructor contract of C07 (arrays sorted by one permutation).',
+        'trusted': NUMPY_TRUST + ['arcsinh as an uninterpreted increasing odd function; PI, 10 log10(e) as bounded constants'],
+        'extra': [],
+    },
+    'C05': {
+        'level': 'proof',
+        'claim': 'Fiber.propagate with the Raman computation off attenuates every channel by exactly att_in + con_in + '
+                 'loss_coef x length + lumped losses + con_out (dB) = Fiber.loss; CD and latency add, PMD adds in quadrature, '
+                 'PDL untouched; the attenuation profile equals exp(-alpha L) x lumped losses with alpha = loss_coef / '
+                 '(10 log10 e); ROADM and amplifier PMD/PDL in quadrature (C06/C04 contracts).',
+        'level_note': 'scalar loss coefficient (per-frequency tables go through an interpolation that is not modelled); '
+                      '_create_lumped_losses + cumprod is an assumed contract checked bounded (it fails for two lumped '
+                      'losses at one position: known finding F7). Raman-on clauses (low-power limit, perturbative vs '
+                      'numerical, pumps only add gain) are statements about numerical ODE solvers: not claimed.',
+        'trusted': NUMPY_TRUST + ['exp/log/db2lin axioms (ground instances)', 'RamanSolver._create_lumped_losses + numpy.cumprod'],
+        'extra': [{'name': 'lumped_losses', 'kind': 'bounded', 'script': 'bounded/lumped_losses.py'}],
+    },
 }
